@@ -67,8 +67,12 @@ def harness_log():
 
 def modflags():
     """-modfile for the harness builds when the checks run against a scratch worktree (VERIF_REPO)."""
+    cover = []
+    if os.environ.get("VERIF_COVER"):
+        # development aid only: statement coverage of the library by the harness (GOCOVERDIR says where it is written)
+        cover = ["-cover", "-coverpkg=github.com/polydawn/refmt/..."]
     if REPO == "/repo":
-        return []
+        return cover
     os.makedirs(BUILD, exist_ok=True)
     alt = os.path.join(BUILD, "alt-go.mod")
     with open(os.path.join(VERIF, "harness", "go.mod")) as f:
@@ -80,7 +84,7 @@ def modflags():
             g.write(f.read())
     except OSError:
         pass
-    return ["-modfile=" + alt]
+    return cover + ["-modfile=" + alt]
 
 
 def build_harness():
